@@ -156,6 +156,10 @@ def gen_call(r, spec, uid):
         if v == 5:
             return {'op': 'eval', 'body': 'return {%r: [-1, -33, 255, 65536, 2**32, 2**63, -2**63, 2**64 - 1]}' % uid, 'expect': None, 'calc': True}
         if v == 6:
+            if r.random() < 0.5:
+                # a request that takes long on the server (virtual clock): the reply must still pair with it
+                d = r.choice((3, 12, 25, 70))
+                return {'op': 'eval', 'body': 'import time\ntime.sleep(%d)\nreturn %r' % (d, uid), 'expect': uid, 'slow': d}
             return {'op': 'eval', 'body': 'pass', 'expect': None, 'calc': True}
         return {'op': 'eval', 'body': 'x = %r\nreturn x + x' % uid, 'expect': uid + uid}
     q = G.gen_request(r, spec, uid=uid)
@@ -426,7 +430,9 @@ class Session(object):
                 self.faults[fault] = self.faults.get(fault, 0) + 1
 
             # ---- liveness
-            budget = 10.0 + (case.get('launch_delay', 0.0) + 5.0 if len(w.procs) > nproc else 0.0)
+            budget = 10.0 + call.get('slow', 0) + (case.get('launch_delay', 0.0) + 5.0 if len(w.procs) > nproc else 0.0)
+            if call.get('slow'):
+                self.faults['slow_request'] = self.faults.get('slow_request', 0) + 1
             if elapsed > budget:
                 self.vio('C15/liveness/slow-call/%s' % tag, 'call %d took %.2f simulated seconds' % (idx, elapsed))
 
